@@ -367,6 +367,10 @@ def run(ctx):
         wsgi_stream(ctx, events, [0] * len(events), "utf-8", ping=5, consumer_delay=0.004)
         ctx.mon("slow-consumer")
         ctx.case(("wsgi-slow-big", i, ctx.shard))
+    for i in range(ctx.scale(12, 600)):
+        cs = rng.choice(CHARSETS)
+        one_object_two_clients(ctx, [gen_event(rng, cs) for _ in range(rng.randrange(1, 5))], cs)
+        ctx.case(("one-object-two-clients", i, ctx.shard))
     # two streams written by two server threads at once (placed thread switches)
     from vf import inflight
     pre = inflight.Preemptor()
@@ -377,6 +381,37 @@ def run(ctx):
             ctx.case(("pre-empted-streams", i, ctx.shard))
     finally:
         pre.close()
+
+
+def one_object_two_clients(ctx, events, charset):
+    """ONE WSGI SendEventResponse over a re-iterable producer answers two connections whose bodies are consumed in rotation:
+    each client gets every event, in order (run in a helper thread: a relay that never ends would block the consumer)"""
+    import threading
+
+    from baize import wsgi
+
+    class Feed:
+        def __iter__(self):
+            return iter([dict(e) for e in events])
+    out = {}
+
+    def work():
+        with drivers.fresh_sse_pool():
+            resp = wsgi.SendEventResponse(Feed(), ping_interval=30, charset=charset)
+            out["res"] = drivers.run_wsgi_many(resp, [drivers.to_environ(drivers.Req()), drivers.to_environ(drivers.Req(path=b"/second"))])
+    t = threading.Thread(target=work, daemon=True, name="c19-two-clients")
+    t.start()
+    t.join(20)
+    case = {"events": events, "charset": charset, "iface": "wsgi", "one_object_two_clients": True}
+    ctx.mon("one-object-two-clients")
+    if t.is_alive():
+        ctx.inconclusive(f"one response object, two clients: the consumer did not finish within the watchdog ({case})")
+        return
+    for n, r in enumerate(out["res"]):
+        if r.exc is not None:
+            ctx.violation(f"exception|one-object-two-clients|{type(r.exc).__name__}", case, repr(r.exc))
+            return
+        judge_stream(ctx, events, r.body.decode(charset), case, f"wsgi|one-object-two-clients|client-{n}")
 
 
 def preempted_streams(ctx, pre, evs_a, evs_b, charset):
@@ -419,6 +454,10 @@ def _share(case):
 
 
 def replay(ctx, case):
+    if case.get("one_object_two_clients"):
+        one_object_two_clients(ctx, case["events"], case["charset"])
+        ctx.case(1)
+        return
     if "preempted_streams" in case:
         from vf import inflight
         pre = inflight.Preemptor()
